@@ -8,6 +8,7 @@ package main
 import (
 	"encoding/binary"
 	"errors"
+	"sync/atomic"
 	"fmt"
 	"io"
 	"net"
@@ -23,10 +24,22 @@ import (
 
 var theT *testing.T // set by TestHarness
 
+// Real-time watchdog state: a call that spins without ever blocking cannot be
+// detected in virtual time.
+var (
+	progress   atomic.Int64
+	curHist    atomic.Pointer[hist]
+	curOptsVal atomic.Pointer[seqOpts]
+)
+
 // errPanic stands for a panic inside the client, caught by the harness.
 var errPanic = errors.New("harness: the client panicked")
 
-func safely(f func() error) (err error) {
+// errHung stands for an API call that did not return within one virtual hour with
+// everything else quiescent: the caller is wedged.
+var errHung = errors.New("harness: the call did not return")
+
+func safelyNow(f func() error) (err error) {
 	defer func() {
 		if r := recover(); r != nil {
 			fmt.Fprintf(os.Stderr, "client panic: %v\n", r)
@@ -34,6 +47,18 @@ func safely(f func() error) (err error) {
 		}
 	}()
 	return f()
+}
+
+// safely runs an API call with a watchdog (virtual time) and panic capture.
+func safely(f func() error) error {
+	done := make(chan error, 1)
+	go func() { done <- safelyNow(f) }()
+	select {
+	case err := <-done:
+		return err
+	case <-time.After(time.Hour):
+		return errHung
+	}
 }
 
 // error class bit-vector, mirrors Session.v
@@ -85,6 +110,7 @@ func classOf(err error) uint64 {
 	is(errSimHard, 524288)
 	is(io.ErrUnexpectedEOF, 1048576)
 	is(errPanic, 2097152)
+	is(errHung, 4194304)
 	_ = os.ErrDeadlineExceeded
 	return c
 }
@@ -456,6 +482,8 @@ type hist struct {
 	// Online is still released; lockWrite spins until ReadSlices notices
 	writeFailed bool
 	wasClosed   bool
+	broken      bool // a call hung or panicked: stop using this client
+	pendingOp   string
 	rewrote      map[uint][]byte // Persistence content after an environment rewrite, reported with the next step
 	cid, cfgTerm string
 	initEvs      []event
@@ -533,6 +561,12 @@ func (h *hist) observe() (done, xev string) {
 }
 
 func (h *hist) record(op string, ret string) {
+	progress.Add(1)
+	h.pendingOp = ""
+	if strings.Contains(ret, fmt.Sprint(classOf(errHung))) || strings.Contains(ret, fmt.Sprint(classOf(errPanic))) {
+		h.closed = true
+		h.broken = true
+	}
 	h.settle()
 	evs := h.log.take()
 	done, xev := h.observe()
@@ -555,10 +589,14 @@ func (h *hist) record(op string, ret string) {
 
 // blocking-capable request in its own goroutine
 func (h *hist) spawn(op string, f func(quit <-chan struct{}) error) {
+	if h.broken {
+		return
+	}
+	h.pendingOp = op
 	rid := h.nextR
 	h.nextR++
 	p := &parkedReq{rid: rid, quit: make(chan struct{}), result: make(chan error, 1), locked: !h.online()}
-	go func() { p.result <- safely(func() error { return f(p.quit) }) }()
+	go func() { p.result <- safelyNow(func() error { return f(p.quit) }) }()
 	h.settle()
 	select {
 	case err := <-p.result:
@@ -589,10 +627,14 @@ func coqFilters(fs []string) string {
 }
 
 func (h *hist) doRead() {
+	if h.broken {
+		return
+	}
 	// requests blocked in lockWrite would race with the read routine after a
 	// successful connect: let this connect attempt fail instead
 	h.sc.forceDialFail = h.lockParked()
 	h.bigMsg = nil
+	h.pendingOp = "OpRead"
 	var msg, topic []byte
 	err := safely(func() (e error) { msg, topic, e = h.client.ReadSlices(); return })
 	h.sc.forceDialFail = false
@@ -617,6 +659,9 @@ func (h *hist) doRead() {
 
 // readBackoff measures what ReadBackoff hands out, in virtual time.
 func (h *hist) readBackoff(err error) {
+	if h.broken {
+		return
+	}
 	ch := h.client.ReadBackoff(err)
 	op := fmt.Sprintf("OpReadBackoff %d", classOf(err))
 	switch {
@@ -643,6 +688,9 @@ func (h *hist) readBackoff(err error) {
 }
 
 func (h *hist) adopt() {
+	if h.broken {
+		return
+	}
 	max1, max2 := h.sc.opts.max1, h.sc.opts.max2
 	cfg := h.cfg
 	cfg.AtLeastOnceMax, cfg.ExactlyOnceMax = max1, max2
@@ -734,6 +782,7 @@ func newHist(r *rng, o seqOpts, stats map[string]int) (h *hist, initTerm string,
 	log := &evlog{}
 	sc := &scenario{r: r, opts: o, awaitRel: map[uint16]bool{}, conns: map[*simConn]*brokerConn{}, budgetIn: o.steps}
 	h = &hist{sc: sc, log: log, store: newSimStore(log), parked: map[int]*parkedReq{}, exch: map[int]<-chan error{}, nextX: 1, stats: stats}
+	curHist.Store(h)
 	h.dialer = &simDialer{log: log, onDial: func(id int) (*simConn, bool) {
 		if sc.forceDialFail || (!sc.noFaults && r.intn(1000) < o.faultRate) {
 			return nil, false
@@ -841,7 +890,11 @@ func (h *hist) publish(retain bool, msg []byte, topic string) {
 }
 
 func (h *hist) pubP(level int, retain bool, msg []byte, topic string) {
+	if h.broken {
+		return
+	}
 	var ch <-chan error
+	h.pendingOp = fmt.Sprintf("OpPubP %d %s %s %s", level, coqBool(retain), coqBytes(msg), coqString(topic))
 	err := safely(func() (err error) {
 		switch {
 		case level == 1 && !retain:
@@ -891,6 +944,9 @@ func (h *hist) ping() {
 }
 
 func (h *hist) quit(rid int) {
+	if h.broken {
+		return
+	}
 	close(h.parked[rid].quit)
 	for j := 0; j < 100; j++ {
 		h.settle()
@@ -903,6 +959,9 @@ func (h *hist) quit(rid int) {
 }
 
 func (h *hist) readAll() {
+	if h.broken {
+		return
+	}
 	var b []byte
 	big := h.bigMsg
 	err := safely(func() (e error) { b, e = big.ReadAll(); return })
@@ -915,6 +974,10 @@ func (h *hist) readAll() {
 }
 
 func (h *hist) close() {
+	if h.broken {
+		return
+	}
+	h.pendingOp = "OpClose"
 	err := safely(h.client.Close)
 	h.stats["close"]++
 	h.wasClosed = true
@@ -922,6 +985,10 @@ func (h *hist) close() {
 }
 
 func (h *hist) disconnect() {
+	if h.broken {
+		return
+	}
+	h.pendingOp = "OpDisconnect"
 	err := safely(func() error { return h.client.Disconnect(make(chan struct{})) })
 	h.stats["disconnect"]++
 	h.wasClosed = true
@@ -1001,6 +1068,20 @@ func (h *hist) randomOps(r *rng, o seqOpts) {
 	}
 }
 
+// emergencyTerm renders the current history with the call that never returned.
+func emergencyTerm(h *hist) (string, map[string]any) {
+	steps := append([]string(nil), h.steps...)
+	op := h.pendingOp
+	if op == "" {
+		op = "OpRead"
+	}
+	evs := h.log.take()
+	steps = append(steps, fmt.Sprintf("mkStep (%s) %s (RetErr %d) [] [] false None", op, coqEvents(evs), classOf(errHung)))
+	term := fmt.Sprintf("Hist %s %s %s 0 [\n    %s]", h.cfgTerm, coqString(h.cid), coqEvents(h.initEvs), strings.Join(steps, ";\n    "))
+	return term, map[string]any{"kind": "history", "steps": len(steps), "scenario": h.label,
+		"hung": "the call " + op + " did not return and did not block either (busy loop); the harness stopped"}
+}
+
 // histGen produces case i of a run from its own PRNG.
 type histGen func(i int, r *rng, stats map[string]int) (term string, nontrivial bool, desc map[string]any)
 
@@ -1015,7 +1096,40 @@ func runGen(prop, module, runFn string, seed uint64, n int, gen histGen, out str
 	cs := newCaseSet(prop, module, "histcase", runFn)
 	stats := map[string]int{}
 	r := newRng(seed)
+	// real-time watchdog, outside the bubbles
+	stop := make(chan struct{})
+	defer close(stop)
+	go func() {
+		last, idle := progress.Load(), 0
+		for {
+			select {
+			case <-stop:
+				return
+			case <-time.After(time.Second):
+			}
+			if now := progress.Load(); now != last {
+				last, idle = now, 0
+				continue
+			}
+			idle++
+			if idle < 20 {
+				continue
+			}
+			if h := curHist.Load(); h != nil {
+				term, desc := emergencyTerm(h)
+				desc["index"] = len(cs.terms)
+				cs.add(term, desc, "history", true)
+			}
+			for k, v := range stats {
+				cs.dist[k] = v
+			}
+			cs.extra["harness_stopped"] = "a client call was spinning for 20 s of real time; remaining cases not generated"
+			cs.write(out, shard)
+			os.Exit(0)
+		}
+	}()
 	for i := 0; i < n; i++ {
+		progress.Add(1)
 		hr := newRng(r.u64())
 		var term string
 		var nontriv bool
